@@ -322,7 +322,23 @@ def _check_dt(p, what, r, exp):
         raise Violation('wrong_value', '%s = %r, expected UTC datetime %r' % (p._where(what), r, exp))
 
 
-class Dates(Suite):
+class _TzVaried(Suite):
+    """HTTP dates are GMT: a third of the cases run with the process time zone set away from UTC."""
+
+    def strategy(self, tier):
+        base = self._strategy(tier)
+        return st.builds(lambda c, tz: dict(c, tz=tz), base, st.sampled_from([None, None, 'XXX5', 'YYY-3']))
+
+    def run(self, case):
+        from vf.core import local_timezone
+        with local_timezone(case.get('tz')):
+            info = self._run(case)
+        if case.get('tz'):
+            info = Info(info.nontrivial, list(info.labels) + ['server_tz:' + case['tz']])
+        return info
+
+
+class Dates(_TzVaried):
     """HTTP-date: IMF-fixdate through req.date / if_modified_since / if_unmodified_since and
     get_header_as_datetime; the obsolete RFC 850 and asctime forms through
     get_header_as_datetime(obs_date=True); several date headers with different values in one
@@ -331,7 +347,7 @@ class Dates(Suite):
     name = 'dates'
     budget = {'quick': 2400, 'thorough': 100000}
 
-    def strategy(self, tier):
+    def _strategy(self, tier):
         def entry_for(h):
             return st.builds(lambda v, name, lookup: {'header': h, 'value': v, 'name': name, 'lookup': lookup},
                              g.mutate_some(g.date_values()), g.cased(h), g.cased(h))
@@ -347,7 +363,7 @@ class Dates(Suite):
 
         return st.builds(build, st.lists(st.sampled_from(g.DATE_HEADERS).flatmap(entry_for), min_size=1, max_size=3))
 
-    def run(self, case):
+    def _run(self, case):
         entries = case['entries']
         headers = [(e['name'], e['value']['text']) for e in entries]
         present = [e['header'] for e in entries]
@@ -906,7 +922,7 @@ class Accept(Suite):
 # ======================================================================== write / read round trips
 
 
-class RoundTrip(Suite):
+class RoundTrip(_TzVaried):
     """Response -> request round trips on both stacks: resp.last_modified / resp.expires = dt
     (naive or UTC-aware, any microsecond, years 1000-9999), the emitted header fed to
     req.get_header_as_datetime / if_modified_since / if_unmodified_since / date gives dt at second
@@ -917,7 +933,7 @@ class RoundTrip(Suite):
     name = 'roundtrip'
     budget = {'quick': 2000, 'thorough': 80000}
 
-    def strategy(self, tier):
+    def _strategy(self, tier):
         return st.builds(
             lambda m, us, aware, attr, hdr, tag, how, others, pos, cond: {
                 'moment': m, 'us': us, 'aware': aware, 'attr': attr, 'header': hdr, 'tag': list(tag), 'how': how,
@@ -928,7 +944,7 @@ class RoundTrip(Suite):
             g.etag_members, st.sampled_from(['dumps', 'dumps', 'raw']),
             st.lists(g.etag_members, max_size=3), st.integers(0, 3), st.sampled_from(['If-None-Match', 'If-Match']))
 
-    def run(self, case):
+    def _run(self, case):
         y, mo, d, h, mi, s = case['moment']
         dt = _dt.datetime(y, mo, d, h, mi, s, case['us'], tzinfo=_UTC if case['aware'] else None)
         opaque, weak = case['tag']
